@@ -118,7 +118,10 @@ def run(ctx: core.Ctx, pairs: list[tuple[str, str]], stream: str, envs: list[dic
 
 def correspondence(ctx: core.Ctx) -> None:
     run(ctx, CORPUS, "corpus")
-    n = ctx.budget(350, 12000)
+    sv = G.same_variable_pairs(ctx.rng, ctx.budget(450, 10 ** 9))
+    for k in range(0, len(sv), 500):
+        run(ctx, sv[k:k + 500], "same-variable")
+    n = ctx.budget(300, 12000)
     pairs = [gen_pair(ctx.rng) for _ in range(n)]
     for k in range(0, len(pairs), 400):
         run(ctx, pairs[k:k + 400], "gen")
